@@ -111,6 +111,6 @@ CaseResult body_lookup(Chooser& ch, Stats* st) {
 
 int main(int argc, char** argv) {
   Options o = parse_options(argc, argv);
-  Prop p{"lookup", body_lookup, 1.0, 1 /* isolate */, 2048, 30};
+  Prop p{"lookup", body_lookup, 1.0, 1 /* isolate */, 2048, 10};
   return run_main(o, "C04", {p});
 }
